@@ -75,6 +75,24 @@ class Check:
         self.pid = pid
         self.level = level
         self.t0 = time.time()
+        # A caller may have started us with SIGINT/SIGTERM/... ignored (e.g.
+        # as an asynchronous shell job); lbzip2 children would inherit that
+        # and the signal-related checks would see a different program.
+        import signal
+        for sg in (signal.SIGINT, signal.SIGTERM, signal.SIGQUIT,
+                   signal.SIGHUP, signal.SIGUSR1, signal.SIGUSR2):
+            try:
+                if signal.getsignal(sg) == signal.SIG_IGN:
+                    signal.signal(sg, signal.SIG_DFL)
+            except (OSError, ValueError):
+                pass
+        try:
+            signal.pthread_sigmask(signal.SIG_UNBLOCK,
+                                   {signal.SIGINT, signal.SIGTERM,
+                                    signal.SIGUSR1, signal.SIGUSR2,
+                                    signal.SIGPIPE, signal.SIGXFSZ})
+        except (OSError, ValueError, AttributeError):
+            pass
         self.tier = os.environ.get('VERIF_TIER', 'quick')
         for i, a in enumerate(sys.argv):
             if a == '--tier' and i + 1 < len(sys.argv):
